@@ -487,6 +487,23 @@ fn main() {
                 l.states(1);
                 l.checked(2);
                 l.nontrivial();
+                // the origin given through the calculator's own setter (above) or through a Difficulty: the same state
+                if d[9] != 0 {
+                    let origin = if d[9] == 1 { Difficulty::new().lazer(false) } else { Difficulty::new().mods(ModSpec::Classic(None).build(map.mode)) };
+                    // (apply() sets the origin once more through the setter, after the Difficulty: both say the same)
+                    let mut pd = apply(Performance::new(map.clone()).difficulty(origin.clone()));
+                    // and with the Difficulty last, replacing whatever the setter did
+                    let sd2 = {
+                        let mut p = apply(Performance::new(map.clone())).difficulty(origin);
+                        p.generate_state()
+                    };
+                    let sd = pd.generate_state();
+                    l.checked(2);
+                    if sd != sm || sd2 != sm {
+                        l.violation("origin_setter_vs_difficulty", || format!("mode {} digits={d:?}\norigin through the setter          : {sm:?}\norigin through a Difficulty + setter: {sd:?}\norigin through a Difficulty (last)  : {sd2:?}\n--- .osu ---\n{}", spec.mode, spec.text()));
+                        return;
+                    }
+                }
                 if sm != sa {
                     l.violation("map_vs_attrs_state", || format!("mode {} digits={d:?}\nthe builder holding the map generates {sm:?}\nthe builder holding its attributes generates {sa:?}\n--- .osu ---\n{}", spec.mode, spec.text()));
                     return;
